@@ -548,7 +548,13 @@ def run(ctx: Ctx):
             finally:
                 torch.set_default_dtype(torch.float64)
         # histories: objects with different formulas but equal irreps, used one after the other in this process
-        cartesian_histories(ctx, g)
+        # (FX graphs left unscripted here: 5x faster construction; the scripted path is exercised by cartesian_oracles above)
+        old_opt = e3nn.get_optimization_defaults()
+        try:
+            e3nn.set_optimization_defaults(jit_script_fx=False)
+            cartesian_histories(ctx, g)
+        finally:
+            e3nn.set_optimization_defaults(**old_opt)
     finally:
         torch.set_default_dtype(old_dtype)
 
